@@ -127,6 +127,32 @@ func genC13(w *bufio.Writer, tier string, rng *rand.Rand) {
 		ops = append(ops, read(0), read(1), comb(d, 1-d), read(d), add(d, M), read(d))
 		emit(2, ops)
 	}
+	// 1b''. the very top of the range: values of one sign in a narrow band around 1e308 (totals, squares and sums of
+	// squared deviations overflow - legitimately; counts, extremes and the MEAN do not), and values of both signs
+	// around 1e154 (the mean of squares still fits, the sum of squared deviations may not), split and combined
+	for h := 0; h < pick(tier, 150, 4000); h++ {
+		var ops []string
+		n0, n1 := 1+rng.Intn(6), 1+rng.Intn(6)
+		mixed := rng.Intn(2) == 0
+		M := []float64{1e308, 1.5e308, -1.7e308, 9e307}[rng.Intn(4)]
+		if mixed {
+			M = []float64{1e154, 5e153, 1.2e154, 1.3e154}[rng.Intn(4)]
+		}
+		for i := 0; i < n0+n1; i++ {
+			x := M * (1 - float64(rng.Intn(64))/8192)
+			if mixed && rng.Intn(2) == 0 {
+				x = -x
+			}
+			a := 0
+			if i >= n0 {
+				a = 1
+			}
+			ops = append(ops, add(a, x))
+		}
+		d := rng.Intn(2)
+		ops = append(ops, read(0), read(1), comb(d, 1-d), read(d))
+		emit(2, ops)
+	}
 	// 1c. replicas and mirror images: two accumulators of equal count whose data are a permutation of each
 	// other or reflections about a common centre (same mean and spread, different extremes), combined
 	for h := 0; h < pick(tier, 300, 8000); h++ {
